@@ -266,14 +266,6 @@ func (e *Engine) Run() *JobResult {
 		e.prefix = append([]decision{}, e.decs[:k]...)
 		e.prefix = append(e.prefix, decision{chosen: next, n: e.decs[k].n, feas: e.decs[k].feas})
 	}
-	// vacuity: every statically known assert label must have been reached
-	if !e.concreteMode() && !e.res.Truncated {
-		for _, l := range e.res.Expected {
-			if a := e.res.Asserts[l]; a == nil || a.Reached == 0 {
-				e.res.Inconclusive = append(e.res.Inconclusive, "vacuous: assertion never reached: "+l)
-			}
-		}
-	}
 	return e.res
 }
 
